@@ -185,3 +185,72 @@ pub fn outcome_prim(r: Outcome<pdf::error::Result<Primitive>>) -> Value {
         Outcome::Panic(p) => panic_json(&p),
     }
 }
+
+// ---------------------------------------------------------------------------------------------
+/// whole-document observation used by the differential checks (C17): trailer, every object below
+/// /Size (streams with their raw data), page list, recovery scan
+pub fn snapshot(bytes: &[u8], password: &[u8], with_scan: bool) -> Value {
+    use pdf::file::{FileOptions, ScanItem};
+    use pdf::object::{PlainRef, Resolve};
+    fn h(d: &[u8]) -> String {
+        // small stable digest (FNV-1a) + length
+        let mut x: u64 = 0xcbf29ce484222325;
+        for b in d { x ^= *b as u64; x = x.wrapping_mul(0x100000001b3); }
+        format!("{}:{:016x}", d.len(), x)
+    }
+    let f = match guarded(|| FileOptions::uncached().password(password).load(bytes.to_vec())) {
+        Outcome::Done(Ok(f)) => f,
+        Outcome::Done(Err(e)) => return json!({"load": err_json(&e)}),
+        Outcome::Panic(p) => return json!({"load": panic_json(&p)}),
+    };
+    let r = f.resolver();
+    let size = f.trailer.size.max(0) as u64;
+    let mut objs = Vec::new();
+    for id in 0..size.min(5000) + 1 {
+        let v = match guarded(|| r.resolve(PlainRef { id, gen: 0 })) {
+            Outcome::Done(Ok(Primitive::Stream(s))) => {
+                let data = match guarded(|| s.raw_data(&r)) {
+                    Outcome::Done(Ok(d)) => json!(h(&d)),
+                    Outcome::Done(Err(e)) => err_json(&e),
+                    Outcome::Panic(p) => panic_json(&p),
+                };
+                json!({"k": "ok", "p": prim_json(&Primitive::Stream(s)), "data": data})
+            }
+            other => outcome_prim(other),
+        };
+        objs.push(v);
+    }
+    let npages = f.num_pages();
+    let mut pages = Vec::new();
+    for i in 0..npages.min(200) {
+        pages.push(match guarded(|| f.get_page(i)) {
+            Outcome::Done(Ok(p)) => json!({"k": "ok", "ref": p.get_ref().get_inner().id}),
+            Outcome::Done(Err(e)) => err_json(&e),
+            Outcome::Panic(p) => panic_json(&p),
+        });
+    }
+    let mut scan = Vec::new();
+    if with_scan {
+        match guarded(|| {
+            let mut items = Vec::new();
+            for it in f.scan().take(20000) {
+                items.push(match it {
+                    Ok(ScanItem::Object(rf, p)) => {
+                        let extra = if let Primitive::Stream(ref s) = p {
+                            match s.raw_data(&r) { Ok(d) => json!(h(&d)), Err(e) => err_json(&e) }
+                        } else { json!(null) };
+                        json!({"obj": rf.id, "gen": rf.gen, "p": prim_json(&p), "data": extra})
+                    }
+                    Ok(ScanItem::Trailer(d)) => json!({"trailer": prim_json(&Primitive::Dictionary(d))}),
+                    Err(e) => { let j = err_json(&e); items.push(j); break; }
+                });
+            }
+            items
+        }) {
+            Outcome::Done(items) => scan = items,
+            Outcome::Panic(p) => scan.push(panic_json(&p)),
+        }
+    }
+    json!({"load": "ok", "size": size, "root": f.trailer.root.get_ref().get_inner().id, "objs": objs, "npages": npages, "pages": pages, "scan": scan,
+           "version": f.version().map_err(|e| err_kind(&e).to_string())})
+}
